@@ -603,6 +603,7 @@ pub fn run(ctx: &mut Ctx, replay: Option<&str>) {
     // The returned claims must be those of the genuine disclosures alone (that shorter list is judged against the model and
     // the specification above; the extracted model is quadratic in the list length, so the long one is judged relative to it)
     {
+        set_patience(240);
         let lens: Vec<usize> = if ctx.tier == Tier::Quick { vec![1100, 4200, 9000] } else { vec![300, 1100, 2100, 4090, 4100, 4200, 8200, 9000, 17000, 70000] };
         for (li, n) in lens.into_iter().enumerate() {
             let mut r = ctx.rng.fork(7_000_000 + li as u64);
@@ -646,6 +647,7 @@ pub fn run(ctx: &mut Ctx, replay: Option<&str>) {
             }
         }
     }
+    set_patience(0);
     for pick in ["altered-value-replacing", "forged-iss", "child-without-parent"] {
         if let Some(a) = attacks.iter().find(|a| a.name.starts_with(pick)) {
             ctx.sample(json!({"list": a.name, "input": a.args.input}));
